@@ -477,6 +477,13 @@ def judge(ctx, key, W, R, adv, role, work, budget, peak, sent_bytes):
                       "(closeSocket is set)" % (e,))
     elif vic.closeSocket:
         ctx.count("socket_closed_after_failure")
+    if tuple(vic.version) != (0, 0):
+        # _shutdown() resets the record layer and the version; a failure
+        # that skipped it leaves keys and state of a dead connection behind
+        ctx.violation(dict(key, clause="state_not_reset_after_failure",
+                           exc=cls), W,
+                      "victim raised %r without shutting the connection "
+                      "down (version still %r)" % (e, vic.version))
     sess = vic.session
     if sess is not None and (sess.resumable or sess.valid()) and \
             not isinstance(e, E.TLSRemoteAlert):
